@@ -33,7 +33,8 @@ def chain_model(draw, max_depth):
     np_ = draw(st.integers(1, 3))
     depth = draw(st.one_of(st.integers(1, 8), st.integers(1, max_depth)))
     nside = draw(st.integers(0, 4))
-    names = draw(st.lists(st.sampled_from(G.SAFE_POOL), min_size=ns + np_ + depth + nside, max_size=ns + np_ + depth + nside, unique=True))
+    pool = list(G.SAFE_POOL) + [f"lk{i}" for i in range(40) if f"lk{i}" not in G.SAFE_POOL]  # deep chains need more names than the pool has
+    names = draw(st.lists(st.sampled_from(pool), min_size=ns + np_ + depth + nside, max_size=ns + np_ + depth + nside, unique=True))
     sn, pn = names[:ns], names[ns : ns + np_]
     cn, side = names[ns + np_ : ns + np_ + depth], names[ns + np_ + depth :]
     base = sn + pn
